@@ -6,12 +6,12 @@
 set -u
 TREE=${1:-/repo}
 WORK=/var/tmp/slipwork
-mkdir -p $WORK/tmp
-unset GOFLAGS; export GOPROXY=off TMPDIR=$WORK/tmp
-if [ "$TREE" = /repo ]; then
-  rm -rf $WORK/basecopy && cp -a /repo $WORK/basecopy && TREE=$WORK/basecopy
-  CLEAN=1
-fi
+# always run on a private copy with a private TMPDIR (several invocations may run at once)
+COPY=$WORK/basecopy.$$
+mkdir -p $WORK/tmp.$$
+unset GOFLAGS; export GOPROXY=off TMPDIR=$WORK/tmp.$$
+rm -rf $COPY && cp -a $TREE $COPY && TREE=$COPY
+CLEAN=1
 OUT=$WORK/baseline.$$.json
 : > $OUT
 # the suite has port-using tests (test/watch) that occasionally fail; a test counts as passing
@@ -44,5 +44,5 @@ rc=$?
 [ $rc = 0 ] && break
 done
 rm -f $OUT $OUT.run
-[ "${CLEAN:-0}" = 1 ] && rm -rf $WORK/basecopy
+rm -rf $COPY $WORK/tmp.$$
 exit $rc
